@@ -3,6 +3,7 @@ package main
 import (
 	"bytes"
 	"fmt"
+	"io"
 	"os"
 	"regexp"
 	"runtime"
@@ -544,7 +545,106 @@ func suiteC20Conc(cfg Config, res *Result) {
 			res.sample(desc)
 		}
 	}
+	c20CleanDuringMiss(res)
 	collectRaces(res)
+}
+
+// gateLoader holds every Get of one name until released
+type gateLoader struct {
+	*memLoader
+	hold    string
+	entered chan struct{}
+	release chan struct{}
+}
+
+func (g *gateLoader) Get(p string) (io.Reader, error) {
+	if strings.HasSuffix(p, g.hold) {
+		select {
+		case g.entered <- struct{}{}:
+		default:
+		}
+		<-g.release
+	}
+	return g.memLoader.Get(p)
+}
+
+// c20CleanDuringMiss: a CleanCache that runs while another goroutine is in the middle of loading
+// some other name still clears what it names: whichever of the two finishes first, a name cached
+// before and covered by the clean is fetched again at its next lookup, and the name that was
+// being loaded is served as one template
+func c20CleanDuringMiss(res *Result) {
+	for rep := 0; rep < 24; rep++ {
+		runtime.GOMAXPROCS([]int{1, 2, 8}[rep%3])
+		selective := rep%2 == 1
+		ml := &memLoader{files: map[string]string{"x.tpl": "x", "y.tpl": "y", "slow.tpl": "s"}, id: "0"}
+		gl := &gateLoader{memLoader: ml, hold: "slow.tpl", entered: make(chan struct{}, 1), release: make(chan struct{})}
+		set := pongo2.NewSet("c20g", gl)
+		res.Cases++
+		res.DistinctNontrivial++
+		px, _ := set.FromCache("x.tpl")
+		py, _ := set.FromCache("y.tpl")
+		desc := fmt.Sprintf("x.tpl and y.tpl cached; FromCache(slow.tpl) in flight; CleanCache(%s) meanwhile", map[bool]string{true: "x.tpl", false: ""}[selective])
+		var wg sync.WaitGroup
+		var slow1 *pongo2.Template
+		wg.Add(1)
+		go func() { defer wg.Done(); slow1, _ = set.FromCache("slow.tpl") }()
+		select {
+		case <-gl.entered:
+		case <-time.After(5 * time.Second):
+			res.add(Finding{Kind: "disagree", Proj: "harness", Sig: "c20-gate-not-reached", Case: desc})
+			close(gl.release)
+			wg.Wait()
+			continue
+		}
+		cleaned := make(chan struct{})
+		wg.Add(1)
+		go func() {
+			defer wg.Done()
+			if selective {
+				set.CleanCache("x.tpl")
+			} else {
+				set.CleanCache()
+			}
+			close(cleaned)
+		}()
+		select { // an implementation that does not wait for the load finishes the clean now
+		case <-cleaned:
+		case <-time.After(30 * time.Millisecond):
+		}
+		close(gl.release)
+		wg.Wait()
+		count := func(name string) int {
+			ml.mu.Lock()
+			defer ml.mu.Unlock()
+			c := 0
+			for _, l := range ml.log {
+				if strings.HasSuffix(l, ":"+name) {
+					c++
+				}
+			}
+			return c
+		}
+		bx := count("x.tpl")
+		px2, err := set.FromCache("x.tpl")
+		if err != nil || px2 == nil || count("x.tpl") != bx+1 || px2 == px {
+			res.add(Finding{Kind: "oracle", Proj: "race", Sig: "c20-clean-during-load-did-not-forget", Case: desc, Impl: fmt.Sprintf("x.tpl afterwards: fetched=%v same template as before=%v", count("x.tpl") != bx, px2 == px), Model: "a cleaned name is fetched again"})
+		}
+		if selective {
+			by := count("y.tpl")
+			if py2, _ := set.FromCache("y.tpl"); py2 != py || count("y.tpl") != by {
+				res.add(Finding{Kind: "oracle", Proj: "race", Sig: "c20-clean-during-load-forgot-too-much", Case: desc, Impl: "y.tpl was loaded again", Model: "a name no clean covered stays cached"})
+			}
+		}
+		if slow1 == nil {
+			res.add(Finding{Kind: "oracle", Proj: "race", Sig: "c20-load-lost", Case: desc, Impl: "FromCache(slow.tpl) returned no template", Model: "the template"})
+		}
+		// slow.tpl: whether the clean came before or after its load finished, later lookups agree with each other
+		s2, _ := set.FromCache("slow.tpl")
+		s3, _ := set.FromCache("slow.tpl")
+		if s2 == nil || s2 != s3 || (selective && s2 != slow1) {
+			res.add(Finding{Kind: "oracle", Proj: "race", Sig: "c20-concurrent-different-templates", Case: desc, Impl: "slow.tpl is served as different templates", Model: "one template per name"})
+		}
+	}
 }
 
 func indexOf(xs []string, x string) int {
